@@ -328,6 +328,14 @@ class Engine:
             return []
         return self.cg.targets(fn, ins)
 
+    def targets_mode(self, mode, fn, ins):
+        old = self.mode
+        self.mode = mode
+        try:
+            return self.targets(fn, ins)
+        finally:
+            self.mode = old
+
     def _is_main_test(self, fn, P, cond):
         """br condition that is pthread_equal(pthread_self(), main_thread) != 0 -> True"""
         e = strip_casts(P.expr(cond))
